@@ -242,7 +242,7 @@ func (ir *ifdReader) readIfd(ifd ifds.Ifd) (err error) {
 // Limited to total 6 SubIfds, can be increased.
 func (ir *ifdReader) readSubIfds(t Tag) {
 	if t.IsType(tag.TypeLong) {
-		buf, err := ir.readTagValue()
+		buf, err := ir.readTagValue(t)
 		if err != nil {
 			if ir.logLevelError() {
 				t.logTag(ir.logError(err)).Send()
